@@ -1,35 +1,7 @@
 (* C11: the link follows the normal-response-mode client procedure with mod-8 numbering. *)
-From Dlms Require Import Base FrameModel HdlcConnModel.
+From Dlms Require Import Base FrameModel HdlcConnModel HdlcLinkSpec.
 From Coq Require Import ZifyBool ZifyN.
 Ltac Zify.zify_post_hook ::= Z.to_euclidean_division_equations.
-
-(* ---------- reference automaton (DESIGN.md appendix B) ---------- *)
-Inductive dir := DSend | DRecv.
-(* edges a conforming client may take, with the prescribed post-state *)
-Definition nrm_may (s : N) (d : dir) (k : fkind) : option N :=
-  match s, d, k with
-  | 0, DSend, KSnrm => Some 3          (* NOT_CONNECTED  --send SNRM-->  AWAITING_CONNECTION *)
-  | 3, DRecv, KUa => Some 1            (* AWAITING_CONNECTION  --recv UA-->  IDLE *)
-  | 1, DSend, KInfo => Some 2          (* IDLE  --send I-->  AWAITING_RESPONSE *)
-  | 1, DSend, KRr => Some 2
-  | 1, DSend, KDisc => Some 4          (* IDLE  --send DISC-->  AWAITING_DISCONNECT *)
-  | 2, DRecv, KInfo => Some 1          (* AWAITING_RESPONSE  --recv I-->  IDLE *)
-  | 2, DRecv, KRr => Some 1            (* permitted, not required *)
-  | 4, DRecv, KUa => Some 0            (* AWAITING_DISCONNECT  --recv UA-->  NOT_CONNECTED *)
-  | _, _, _ => None
-  end.
-(* edges that must be accepted *)
-Definition nrm_must (s : N) (d : dir) (k : fkind) : option N :=
-  match s, d, k with
-  | 2, DRecv, KRr => None
-  | _, _, _ => nrm_may s d k
-  end.
-
-Definition link_step (l : link) (d : dir) (k : fkind) (ssn rsn : N) : res unit * link :=
-  match d with DSend => link_send l k ssn rsn | DRecv => link_deliver l k ssn rsn end.
-(* the counters an I frame has to carry in direction d *)
-Definition expected_numbers (l : link) (d : dir) : N * N :=
-  match d with DSend => (server_ssn l, server_rsn l) | DRecv => (client_ssn l, client_rsn l) end.
 
 Lemma state_cases s : s < 6 -> s = 0 \/ s = 1 \/ s = 2 \/ s = 3 \/ s = 4 \/ s = 5.
 Proof. lia. Qed.
